@@ -424,8 +424,23 @@ Definition cusum : detector :=
        end)
     show.
 
-(** ** detectors that keep numbers only: ADWIN, PageHinkley (X[0][0], arithmetic on the validated
-    array gives new arrays), DDM, EDDM, STEPD, LinearFourRates, ADWINAccuracy (y[0] scalars) *)
+(** ** PageHinkley (change_detection/page_hinkley.py).  slot 0 = _change_scores, a python list that
+    reset() empties at the update following a drift.
+    update: [X = validate(X); ...; self._change_scores.append(X)] (to_dataframe() shows it);
+    _mean, _sum, ... are results of arithmetic on X, i.e. new arrays (pure state here). *)
+Variable ph_upd : P -> value -> bool (* a drift was pending: reset() runs first *) * P.
+Definition page_hinkley : detector :=
+  mkDet P O p0 1 ok
+    (fun m p sl x =>
+       match m with
+       | MUpdate => let '(pending, p') := ph_upd p x in
+                    (p', (if pending then [Clear 0] else []) ++ [Push 0 SValidated])
+       | _ => (p, [])
+       end)
+    show.
+
+(** ** detectors that keep numbers only: ADWIN (X[0][0]), DDM, EDDM, STEPD, LinearFourRates,
+    ADWINAccuracy (y[0] scalars) *)
 Variable scalar_upd : P -> value -> P.
 Definition scalar_detector : detector :=
   mkDet P O p0 0 ok (fun m p sl x => match m with MUpdate => (scalar_upd p x, []) | _ => (p, []) end) show.
@@ -529,13 +544,14 @@ Inductive site :=
 | SiteKdqBatchAdopted     (* KdqTreeBatch.update with drift -> ref_data *)
 | SitePcacdRef | SitePcacdTest    (* PCACD.update -> _reference_window / _test_window *)
 | SiteCusumStream         (* CUSUM.update -> _stream[-1] *)
+| SitePhScores            (* PageHinkley.update -> _change_scores[-1] *)
 | SiteMd3Features | SiteMd3Target (* MD3.set_reference *)
 | SiteMd3OracleFirst      (* MD3.give_oracle_label, first labelled row -> oracle_data *)
 | SiteMd3OracleNext.      (* MD3.give_oracle_label, later rows -> oracle_data *)
 
 Definition site_origin (c : code) (s : site) : origin :=
   match s with
-  | SiteNndviRef | SiteCusumStream => OValidated
+  | SiteNndviRef | SiteCusumStream | SitePhScores => OValidated
   | SiteHdmAdopted => OFrameOfValidated
   | SiteMd3OracleFirst => if md3_oracle_copies c then OFresh else OArg
   | _ => OFresh
@@ -565,7 +581,7 @@ Definition chk_fact (c : code) (f : fact) (k : kind) (shares_memory : bool) : bo
   Bool.eqb (fact_shares c f k) shares_memory.
 
 (** detectors by name, for the overwrite experiment: which sites a history can exercise *)
-Inductive dname := DNndvi | DHdm | DKdqStream | DKdqBatch | DPcacd | DCusum | DScalar | DMd3.
+Inductive dname := DNndvi | DHdm | DKdqStream | DKdqBatch | DPcacd | DCusum | DPh | DScalar | DMd3.
 Definition sites_of (d : dname) : list site :=
   match d with
   | DNndvi => [SiteNndviRef; SiteNndviAdopted]
@@ -574,6 +590,7 @@ Definition sites_of (d : dname) : list site :=
   | DKdqBatch => [SiteKdqBatchFirst; SiteKdqBatchAdopted]
   | DPcacd => [SitePcacdRef; SitePcacdTest]
   | DCusum => [SiteCusumStream]
+  | DPh => [SitePhScores]
   | DScalar => []
   | DMd3 => [SiteMd3Features; SiteMd3Target; SiteMd3OracleFirst; SiteMd3OracleNext]
   end.
